@@ -1367,6 +1367,17 @@ def _gen_fault_programs():
                         src += f"def f{d}(x):\n" + textwrap.indent(inner, "    ") + "\n\n"
                     src += "pre = 5\nresult = f0(1)\n"
                     progs.append((f"depth={depth},fault={fk},wrap={wk},pos={pos}", src))
+    # natively compiled functions (@pyscript_compile) called from interpreted code: the frame CPython itself ran.  The
+    # enclosing constructs matter here because the frame goes on executing clean-up code while the exception unwinds
+    nwraps = dict(wraps)
+    nwraps["tryexcept-other"] = "try:\n    {F}\nexcept KeyError:\n    z = 4"
+    nwraps["nested-finally"] = "try:\n    try:\n        {F}\n    finally:\n        z = 3\nfinally:\n    z = 4\n    z = 5"
+    for fk, fsrc in faults.items():
+        for wk, wsrc in nwraps.items():
+            body = ["a = 1", wsrc.replace("{F}", fsrc), "b = 2", "return 0"]
+            src = "@pyscript_compile\ndef native(x):\n" + textwrap.indent("\n".join(body), "    ") + "\n\n"
+            src += "def f0(x):\n    q = 0\n    return native(x) + 1\n\npre = 5\nresult = f0(1)\n"
+            progs.append((f"native,fault={fk},wrap={wk}", src))
     return progs
 
 
@@ -1383,7 +1394,7 @@ async def c18_traceback_bounded(w):
         n += 1
         fname = "/cfg/pyscript/tb.py"
         try:
-            exec(compile(src, fname, "exec", dont_inherit=True), {})
+            exec(compile(src, fname, "exec", dont_inherit=True), {"pyscript_compile": lambda f: f})
             cpy = None
         except Exception as e:  # noqa
             cpy = (type(e).__name__, [(fr.name, fr.lineno) for fr in traceback.extract_tb(e.__traceback__) if fr.filename == fname])
@@ -1446,7 +1457,7 @@ async def c18_traceback_bounded(w):
         failures.append({"signature": "log:percent-in-message", "records": msgs[:3]})
     await shutdown()
     return {"unit": "EvalExceptionFormatter (file, function, line) attribution", "method": "generated faulty programs vs CPython traceback",
-            "bound": "call depth 1-3 x 4 fault kinds x 5 enclosing constructs x 2 positions", "cases": n, "failures": failures[:5],
+            "bound": "call depth 1-3 x 4 fault kinds x 5 enclosing constructs x 2 positions; a natively compiled (@pyscript_compile) callee x 4 fault kinds x 7 enclosing constructs", "cases": n, "failures": failures[:5],
             "reproduced": bool(failures)}
 
 
